@@ -7,7 +7,13 @@ queue_bounded, queue_progress.
 Correspondence: (i) real ndl.ndl across n_jobs x n_outcomes_per_job x method x
 PYTHONHASHSEED (separate worker pools per hash seed) vs the Lean model,
 exact; (ii) exactly-once probe (one single-cue event, alpha*beta = 1/2: 0.5
-once, 0.75 twice, 0 never) on 1..200 outcomes; (iii) trace validation: the
+once, 0.75 twice, 0 never) on 1..200 outcomes, and three identical events in
+TWO chunk files (events_per_temporary_file=2) for 11/20/65 outcomes x 7/16/64
+threads x chunk sizes 1/3/10: every row trained exactly three times (value
+taken from the model: 7/8); (i') half of the configurations continue from
+initial weights with 5..25 outcome rows the file never mentions (all memory
+layouts): ndl.ndl rebuilds the list of rows to train from old + new outcomes,
+and those rows must be trained on every event too; (iii) trace validation: the
 history of the shared work queue (logging Queue + kernel proxy, schedule
 shaken by random sleeps) is replayed through the Lean transition system and
 the hypotheses of schedule_independent are checked on it (row sets disjoint
@@ -49,13 +55,59 @@ def _configs(rep, pools, driver, r, quick):
         es = gen.events(r, r.randint(2, 9), dup=r.choice([0.0, 0.3]), late=(i % 2 == 0))
         n_out = len({o for _, os_ in gen.file_norm(es) for o in os_})
         base = dict(gen.params(r), events=es, policy='dedup' if gen.has_dup(es) else 'error', stream='configs')
+        if i % 2 == 1:
+            # continuation: ndl.ndl rebuilds the list of outcome rows to train from the OLD outcomes (rows
+            # of `weights`) plus the new ones of the file; 5..25 rows that the file never mentions, with
+            # non-zero weights on the file's cues, must be trained (as absent outcomes) on every event
+            base['stream'] = 'configs_continue'
         njs = [1, 2, 3, 7, 16, 64]
         pjs = list(range(1, n_out + 3))
+        if i % 2 == 1:
+            # between n_out + 5 and n_out + 25 rows: chunk sizes around the default 10 and up to more than all rows
+            pjs = sorted({1, 2, 3, 10, 11, 26, n_out + 27})
         combos = [(nj, pj, m) for nj in njs for pj in pjs for m in ('ndl_threading', 'ndl_openmp')]
-        for nj, pj, m in (r.sample(combos, min(len(combos), 10)) if quick else combos):
+        for j, (nj, pj, m) in enumerate(r.sample(combos, min(len(combos), 10)) if quick else combos):
+            if i % 2 == 1 and j % 5 == 0:
+                base = dict(base, init_lw=_extra_rows(r, es))      # new initial weights every five configurations
             cases.append((dict(base, n_jobs=nj, per_job=pj, per_file=r.choice([2, 5, 10000000])), m,
                           r.choice(list(pools))))
     _run_cases(rep, pools, driver, cases)
+
+
+def _extra_rows(r, es):
+    """initial weights (LW form of learners.model_request) whose rows are 5..25 outcomes that do not occur in
+    the events, sometimes also a few that do; columns: the cues of the events (shuffled), sometimes one more"""
+    file_cues = sorted({c for cs, _ in es for c in cs})
+    file_outs = sorted({o for _, os_ in gen.file_norm(es) for o in os_})
+    outs = ['X%d' % k for k in range(r.randint(5, 25))] + r.sample(file_outs, r.randint(0, min(2, len(file_outs))))
+    cues = r.sample(file_cues, len(file_cues)) + (['Q'] if r.random() < 0.3 else [])
+    r.shuffle(outs)
+    vals = ['%d/8' % r.choice([-8, -5, -3, -1, 1, 2, 3, 4, 6, 8]) if r.random() < 0.85 else '0/1'
+            for _ in outs for _ in cues]
+    return {'outcomes': outs, 'cues': cues, 'vals': vals, 'layout': r.choice(['c', 'c', 'f', 'transposed', 'slice'])}
+
+
+def _shrink_init(pool, driver, case, m, budget=40):
+    """drop rows, then columns, of the initial weights while implementation and model still disagree"""
+    steps = 0
+    cur = case
+    for axis in ('outcomes', 'cues'):
+        i = 0
+        while i < len(cur['init_lw'][axis]) and steps < budget:
+            lw = cur['init_lw']
+            if len(lw[axis]) <= 1:
+                break
+            no, nc = len(lw['outcomes']), len(lw['cues'])
+            keep = [(a, b) for a in range(no) for b in range(nc) if (a if axis == 'outcomes' else b) != i]
+            lw2 = dict(lw, vals=[lw['vals'][a * nc + b] for a, b in keep], layout='c',
+                       **{axis: lw[axis][:i] + lw[axis][i + 1:]})
+            steps += 1
+            c2 = dict(cur, init_lw=lw2)
+            if L.evaluate(pool, driver, c2, m)[0] is not None:
+                cur = c2
+            else:
+                i += 1
+    return cur, steps
 
 
 def _probe(rep, pools, driver, r, quick):
@@ -70,6 +122,20 @@ def _probe(rep, pools, driver, r, quick):
                 c = dict(alpha='1', beta1='1/2', beta2='1/4', **{'lambda': '1'}, events=es, policy='error',
                          n_jobs=nj, per_job=pj, per_file=10000000, stream='exactly_once_probe')
                 cases.append((c, m, None))
+    # several chunk files x many work items x many threads: OpenMP opens one parallel region per chunk
+    # file, the threading workers walk the file list inside every work item.  Three identical events
+    # with events_per_temporary_file=2 give two chunk files (2 + 1 events); every present row must have
+    # been trained exactly three times (the value is taken from the Lean model, and must be one value)
+    ks2 = [11, 20, 65] if quick else [11, 12, 20, 21, 33, 64, 65, 130]
+    for k in ks2:
+        outs = ['o%d' % i for i in range(k)]
+        es = [[['a'], outs]] * 3
+        for nj in (7, 16, 64):
+            for pj in ((1, 3, 10) if quick else (1, 2, 3, 10, max(1, k - 1))):
+                for m in ('ndl_threading', 'ndl_openmp'):
+                    c = dict(alpha='1', beta1='1/2', beta2='1/4', **{'lambda': '1'}, events=[[list(cs), list(os_)] for cs, os_ in es],
+                             policy='error', n_jobs=nj, per_job=pj, per_file=2, stream='exactly_once_probe_multi_file')
+                    cases.append((c, m, None))
     _run_cases(rep, pools, driver, cases, probe=True)
 
 
@@ -83,22 +149,63 @@ def _run_cases(rep, pools, driver, cases, probe=False):
         for i, x in zip(idxs, res):
             impls[i] = x
     models = driver.ask([L.model_request(c, m) for c, m, _ in cases])
+    shrunk = 0
     for (c, m, hs), impl, model in zip(cases, impls, models):
-        rep.case({'events': c['events'], 'cfg': [c['n_jobs'], c['per_job'], c['per_file'], m, hs]},
+        rep.case(dict({'events': c['events'], 'cfg': [c['n_jobs'], c['per_job'], c['per_file'], m, hs]},
+                      **({'init': c['init_lw']} if c.get('init_lw') is not None else {})),
                  nontrivial=True, stream=c['stream'])
         rep.count('method:' + m)
         rep.count('n_jobs:%d' % c['n_jobs'])
         rep.count('hashseed:%s' % hs)
+        if c['stream'] == 'exactly_once_probe_multi_file':
+            rep.count('probe_multi_file:k=%d' % len(c['events'][0][1]))
+            rep.count('probe_multi_file:n_jobs=%d' % c['n_jobs'])
+            rep.count('probe_multi_file:parts=%s' % (lambda p: '2-4' if p <= 4 else '5-10' if p <= 10 else '11-30' if p <= 30 else '31+')(
+                -(-len(c['events'][0][1]) // c['per_job'])))
+        if c.get('init_lw') is not None:
+            extra = [o for o in c['init_lw']['outcomes'] if o not in {x for _, os_ in gen.file_norm(c['events']) for x in os_}]
+            rep.count('continue_extra_rows:%s' % ('5-10' if len(extra) <= 10 else '11-18' if len(extra) <= 18 else '19-25'))
+            rep.count('continue_layout:' + c['init_lw'].get('layout', 'c'))
+            rep.count('continue_parts:%s' % (lambda p: '1' if p == 1 else '2-4' if p <= 4 else '5-10' if p <= 10 else '11+')(
+                -(-len(model.get('outcomes', [])) // c['per_job'])))
+            if 'err' not in model:
+                # how many of the rows the file never mentions does the model move (they are trained as absent outcomes)
+                lw = c['init_lw']
+                init = {(o, cu): Fraction(lw['vals'][i * len(lw['cues']) + j]) for i, o in enumerate(lw['outcomes'])
+                        for j, cu in enumerate(lw['cues'])}
+                mc = L.model_cells(model)
+                moved = {o for o in extra if any(mc.get((o, cu), Fraction(0)) != init[(o, cu)] for cu in lw['cues'])}
+                rep.count('continue_extra_rows_moved_by_model', len(moved))
+                rep.count('continue_extra_rows_total', len(extra))
         d = L.compare(impl, model)
         if d is None and probe and 'err' not in impl:
             vals = {k: v for k, v in gen.cells_dict(impl['cells']).items()}
             n_out = len(c['events'][0][1])
-            bad = [k for k, v in vals.items() if v != Fraction(1, 2)]
-            if bad or len(vals) != n_out:
-                d = 'exactly-once probe: %d of %d rows are 0.5; offending %r' % (
-                    len(vals) - len(bad), n_out, [(k, float(vals[k])) for k in bad[:3]])
+            if c['stream'] == 'exactly_once_probe_multi_file':
+                mvals = sorted(set(L.model_cells(model).values()))
+                want = mvals[0] if len(mvals) == 1 else None     # 7/8 by the model's arithmetic, never typed in here
+                rep.count('probe_multi_file:model_value=%s' % want)
+            else:
+                want = Fraction(1, 2)
+            bad = [k for k, v in vals.items() if v != want]
+            if want is None:
+                d = 'HARNESS: the Lean model does not give one value to all rows of the multi-file probe: %r' % mvals[:4]
+            elif bad or len(vals) != n_out:
+                d = 'exactly-once probe: %d of %d rows are %s; offending %r' % (
+                    len(vals) - len(bad), n_out, float(want), [(k, float(vals[k])) for k in bad[:3]])
         if d is not None:
-            rep.violation({'what': d, 'learner': m, 'input': c, 'hashseed': hs,
+            steps = 0
+            if not probe and shrunk < 3 and L.compare(impl, model) is not None:
+                # greedy shrink (events, tokens, configuration) in the pool of the same hash seed
+                shrunk += 1
+                small, steps = L.shrink(pools[hs], driver, c, m, budget=40)
+                if small.get('init_lw') is not None:
+                    small, steps2 = _shrink_init(pools[hs], driver, small, m)
+                    steps += steps2
+                d2, impl2, model2 = L.evaluate(pools[hs], driver, small, m)
+                if d2 is not None:
+                    c, d, impl, model = small, d2, impl2, model2
+            rep.violation({'what': d, 'learner': m, 'input': c, 'hashseed': hs, 'shrink_steps': steps,
                            'observed': {k: impl.get(k) for k in ('err', 'msg')} if 'err' in impl else impl.get('cells', [])[:10],
                            'expected': model.get('err') or model.get('cells', [])[:10],
                            'python': L.python_snippet(c, m),
